@@ -42,6 +42,7 @@ def audit_sources():
     return problems
 
 def build_coq(timeout=3000):
+    run([sys.executable, os.path.join(ROOT, 'tools', 'genprops.py')])
     if not os.path.exists(os.path.join(COQ, 'Makefile')) or \
        os.path.getmtime(os.path.join(COQ, 'Makefile')) < os.path.getmtime(os.path.join(COQ, '_CoqProject')):
         r = run(['coq_makefile', '-f', '_CoqProject', '-o', 'Makefile'], cwd=COQ)
